@@ -477,12 +477,87 @@ def build_tables(rep, eng, syn, fop):
     return out
 
 
+# ---- R5: shared helper behind LXOR -----------------------------------------------------------------------------------------------------
+# Both back-ends route LXOR through souffle::evaluator::lxor<A> (the interpreter directly, the synthesiser through the lxor_infix curry), so
+# sibling agreement says nothing about it.  The helper's return expression is evaluated over the partition of argument pairs that an
+# expression built from truth-value conversion, !, &&, ||, == and != can distinguish: (0,0) (0,n) (n,0) (n,n) (n,m).  Any other construct
+# is analysis-broken.  Oracle (documented semantics of `lxor`): exactly one operand is non-zero.
+
+class _NoEval(Exception):
+    pass
+
+
+def _bool_eval(n, env):
+    n = strip(n)
+    k = n['k']
+    if k == 'ImplicitCastExpr':
+        v = _bool_eval(kids(n)[0], env)
+        if n.get('ck') == 'IntegralToBoolean':
+            return int(v != 0)
+        if n.get('ck') in ('IntegralCast', 'LValueToRValue', 'NoOp'):
+            return v
+        raise _NoEval('cast ' + str(n.get('ck')))
+    if k == 'DeclRefExpr' and n.get('did') in env:
+        return env[n['did']]
+    if k == 'UnaryOperator' and n.get('op') == '!':
+        return int(not _bool_eval(kids(n)[0], env))
+    if k == 'BinaryOperator' and n.get('op') in ('&&', '||', '==', '!='):
+        a, b = kids(n)
+        if n['op'] == '&&':
+            return int(bool(_bool_eval(a, env)) and bool(_bool_eval(b, env)))
+        if n['op'] == '||':
+            return int(bool(_bool_eval(a, env)) or bool(_bool_eval(b, env)))
+        va, vb = _bool_eval(a, env), _bool_eval(b, env)
+        return int((va == vb) == (n['op'] == '=='))
+    if k == 'ConditionalOperator':
+        c, a, b = kids(n)
+        return _bool_eval(a, env) if _bool_eval(c, env) else _bool_eval(b, env)
+    if k == 'CXXBoolLiteralExpr':
+        return int(n.get('val'))
+    raise _NoEval('%s %s' % (k, n.get('op', '')))
+
+
+def rule_lxor_helper(rep):
+    u, = facts.extract([('src/interpreter/Engine.cpp', r'utility/EvaluatorUtil\.h$', r'evaluator::(lxor|operator\+)')])
+    rep.add_units([u])
+    n = 0
+    for f in u.functions:
+        if f.name == 'lxor' and len(f.d['params']) == 2:
+            n += 1
+            inst = 'lxor<%s>' % f.d['params'][0]['t']
+            rets = [r for r in f.walk() if r['k'] == 'ReturnStmt']
+            if len(rets) != 1 or len(kids(f.body)) != 1:
+                rep.analysis_broken('%s: body is not a single return' % inst)
+                continue
+            px, py = f.d['params'][0]['did'], f.d['params'][1]['did']
+            bad = []
+            try:
+                for (x, y) in ((0, 0), (0, 5), (5, 0), (5, 5), (5, 9)):
+                    got = _bool_eval(kids(rets[0])[0], {px: x, py: y})
+                    if bool(got) != ((x != 0) != (y != 0)):
+                        bad.append('(%s, %s) -> %d' % ('0' if not x else 'n', '0' if not y else ('n' if y == x or not x else 'm'), got))
+            except _NoEval as e:
+                rep.analysis_broken('%s: construct outside the truth-value fragment (%s)' % (inst, e))
+                continue
+            rep.ob('R5-lxor-helper-is-exclusive-or-of-truth-values', inst, not bad, f.where,
+                   '' if not bad else 'lxor must be true exactly when one operand is non-zero; wrong for operand classes %s (0 = zero, n/m = distinct non-zero values)' % bad)
+        if f.name == 'operator+' and f.d.get('cls') == 'curry':
+            n += 1
+            calls = [c for c in f.walk() if is_call(c, 'lxor')]
+            ok = len(calls) == 1 and len(call_args(calls[0])) == 2 and \
+                sorted(strip(a, casts=True)['k'] for a in call_args(calls[0])) == ['DeclRefExpr', 'MemberExpr']
+            rep.ob('R5-lxor-infix-delegates', 'curry<%s>::operator+' % f.d['params'][0]['t'], ok, f.where,
+                   '' if ok else 'the infix form used by the generated code must return lxor(stored operand, right operand)')
+    rep.floor('R5-lxor-helper-instances', n, 4)
+
+
 def run(tier='quick'):
     rep = Report('C24', tier)
     rep.explanation = ('static sibling-agreement analysis: the operator x type tables of the interpreter '
                        '(clang AST of Engine::execute cases), the synthesiser (string skeletons of the emitter cases, '
                        're-parsed as C++ expressions) and FUNCTOR_INTRINSICS / getBinaryConstraintTypes are extracted '
-                       'from the current source and compared per enumerator; exhaustive over both enums')
+                       'from the current source and compared per enumerator; exhaustive over both enums; the helper both back-ends share for LXOR is evaluated over '
+                       'the finite partition of operand pairs its expression can distinguish')
     rep.assumptions = ['the C++ compiler implements the arithmetic of each extracted operator at the extracted type',
                        'two\'s complement wrap-around (-fwrapv is in the build flags): + - * & | ^ ~ unary- and << give the '
                        'same bits at RamSigned and RamUnsigned',
@@ -490,7 +565,7 @@ def run(tier='quick'):
     try:
         analyse(rep)
         ms = [mutate.Mutant(n, f, o, w, e) for (n, f, o, w, e) in MUTANTS]
-        mutate.run_mutants(rep, 'C24', ms if tier == 'thorough' else ms[:2], analyse)
+        mutate.run_mutants(rep, 'C24', ms if tier == 'thorough' else ms[:2] + ms[3:4], analyse)
     except facts.Broken as e:
         rep.analysis_broken(str(e))
     return rep.finish()
@@ -509,6 +584,7 @@ def analyse(rep):
     declC = declared_constraints(eng, rep)
     check_tables(rep, T, declF, declC)
     rule_regex_wrapper(rep)
+    rule_lxor_helper(rep)
     rep.exhaustive = True
     rep.floor('R1-exhaustive', sum(1 for o in rep.obligations if o['rule'] == 'R1-exhaustive'), 73 + 24)
 
@@ -528,9 +604,10 @@ MUTANTS = [
     ('synth-sub-emits-plus', SYN, 'BINARY_OP_NUMERIC(SUB, -)', 'BINARY_OP_NUMERIC(SUB, +)', 'R2'),
     ('wrapper-negates-after-catch', SYN, '(std::regex_match(text, regexCache.getOrCreate(pattern)) != negate); } ',
      'std::regex_match(text, regexCache.getOrCreate(pattern)); } ', 'R2'),
+    ('lxor-compares-values', 'src/include/souffle/utility/EvaluatorUtil.h', 'return (x || y) && (!x != !y);', 'return (x || y) && (x != y);', 'R5'),
     ('synth-udiv-signed', SYN, 'BINARY_OP_NUMERIC(DIV, /)', 'BINARY_OP_NUMERIC(DIV, /)  /* mutated below */', None),
 ]
-MUTANTS = MUTANTS[:3]
+MUTANTS = MUTANTS[:4]
 
 
 def rule_regex_wrapper(rep):
